@@ -12,4 +12,18 @@ Has(r, f) == f \in DOMAIN r
 FailSet(clauses) == {clauses[j][1] : j \in {x \in DOMAIN clauses : ~clauses[x][2]}}
 (* bits of row r for arity n, first operand most significant *)
 RowBits(r, n) == [j \in 1 .. n |-> (r \div Pow2(n - j)) % 2 = 1]
+(* Gate maps read from JSON are TLC records, whose field selection is linear in the number of
+   fields; AsFcn copies such a map once into a function (hashed lookup), which keeps the
+   evaluation of circuits with thousands of gates feasible. *)
+AsFcn(rec) == [l \in DOMAIN rec |-> rec[l]]
+
+(* evaluation along a witness order that is checked on the way; G = AsFcn(c.g) *)
+EvalChecked(G, order, cols, all) ==
+  FoldLeft(LAMBDA acc, l :
+     IF ~acc.ok \/ l \notin DOMAIN G THEN [acc EXCEPT !.ok = FALSE]
+     ELSE IF l \in DOMAIN acc.v THEN acc
+     ELSE LET ops == G[l].o IN
+          IF \E j \in DOMAIN ops : ops[j] \notin DOMAIN acc.v THEN [acc EXCEPT !.ok = FALSE]
+          ELSE [acc EXCEPT !.v = (l :> GateSet(G[l].t, [j \in DOMAIN ops |-> acc.v[ops[j]]], all)) @@ acc.v],
+   [ok |-> TRUE, v |-> cols], order)
 =============================================================================
